@@ -78,13 +78,9 @@ def check_dispatch(res, repo):
             res.ok(rule, {"site": m.where, "delegates": inner})
         else:
             res.fail(rule, finding("C19", rule, m, m.node, f"{name} no longer delegates to {inner}", construct=f"{name}: delegate"))
-    # non-default managers copy what they are given (R-ALIAS)
-    dc = [c for c in calls_in(ap.node) if call_name(c) == "deepcopy"]
-    ext = [c for c in calls_in(ap.node) if call_target(c) == "self.candles.extend"]
-    if len(ext) == 2 and len(dc) == 1 and any(dc[0] in list(ast.walk(e)) for e in ext):
-        res.ok("R-ALIAS", {"site": ap.where, "why": "default manager adopts the candles, every other manager extends with deepcopy(candles_)"}, nontrivial="append:deepcopy")
-    else:
-        res.fail("R-ALIAS", finding("C19", "R-ALIAS", ap, ap.node, "a non-default manager must receive deep copies of the appended candles (otherwise collapsing in one timeframe rewrites another's candles)", construct="append: deepcopy for non-default managers"))
+    from ..ownership import check_raw_copies
+
+    check_raw_copies("C19", res, repo, want=("method", "append"))
 
 
 def _type_names(node):
